@@ -52,7 +52,7 @@ pub fn leaves() -> Vec<Vec<E>> {
         vec![l(MV::Uint(0)), l(MV::Uint(1)), v("u"), l(MV::Uint(u64::MAX))],
         vec![l(MV::f(0.0)), l(MV::f(1.5)), l(MV::f(-2.5)), v("d"), l(MV::f(1e300))],
         vec![l(MV::Bool(true)), l(MV::Bool(false)), v("t")],
-        vec![l(MV::s("")), l(MV::s("a")), l(MV::s("ab")), v("s")],
+        vec![l(MV::s("")), l(MV::s("a")), l(MV::s("ab")), v("s"), l(MV::s("\u{e9}a"))],
         vec![l(MV::Bytes(vec![])), l(MV::Bytes(b"a".to_vec())), v("by")],
         vec![l(MV::Null)],
         vec![E::List(vec![]), E::List(vec![l(MV::Int(1)), l(MV::Int(2)), l(MV::Int(3))]), v("li")],
